@@ -1025,26 +1025,50 @@ class Context:
 
         array_class = type_classes[name]
 
+        def to_index(value, what):
+            """ECMAScript ToIndex: an integer in 0..2^53-1, else RangeError."""
+            from .vm import to_integer_or_infinity
+            from .errors import JSRangeError
+
+            index = to_integer_or_infinity(value)
+            if index < 0 or index > 2**53 - 1:
+                raise JSRangeError(f"Invalid typed array {what}")
+            return int(index)
+
         def constructor_fn(*args):
+            from .errors import JSRangeError
+
             if not args:
                 return array_class(0)
             arg = args[0]
-            if isinstance(arg, (int, float)):
-                # new Int32Array(length)
-                return array_class(int(arg))
-            elif isinstance(arg, JSArrayBuffer):
+            if isinstance(arg, JSArrayBuffer):
                 # new Int32Array(buffer, byteOffset?, length?)
                 buffer = arg
-                byte_offset = int(args[1]) if len(args) > 1 else 0
+                byte_offset = to_index(args[1], "offset") if len(args) > 1 else 0
                 element_size = array_class._element_size
-
-                if len(args) > 2:
-                    length = int(args[2])
+                if byte_offset % element_size != 0:
+                    raise JSRangeError(
+                        f"start offset of {name} should be a multiple of {element_size}"
+                    )
+                if len(args) > 2 and args[2] is not UNDEFINED:
+                    length = to_index(args[2], "length")
+                    if byte_offset + length * element_size > buffer.byteLength:
+                        raise JSRangeError(f"Invalid typed array length: {length}")
                 else:
+                    if (
+                        buffer.byteLength % element_size != 0
+                        or byte_offset > buffer.byteLength
+                    ):
+                        raise JSRangeError(
+                            f"byte length of {name} should be a multiple of {element_size}"
+                        )
                     length = (buffer.byteLength - byte_offset) // element_size
 
                 result = array_class(length, buffer, byte_offset)
                 return result
+            elif not isinstance(arg, JSObject):
+                # new Int32Array(length)
+                return array_class(to_index(arg, "length"))
             elif isinstance(arg, JSArray):
                 # new Int32Array([1, 2, 3])
                 length = arg.length
